@@ -241,4 +241,8 @@ class SvsInst:
         self.running = False
         self.timer_rst_event.set()
         self.ndn_app.detach_handler(self.base_prefix)
+        # The timer task only notices `running` when it runs next; a start() before that would keep it alive
+        # next to the new one
+        if self.timer_task is not None:
+            self.timer_task.cancel()
         self.timer_task = None
